@@ -40,6 +40,7 @@ import re
 import lib
 import norm_common as nc
 import normwhole as nw
+import platform_pa as ppa
 import urlgen
 
 ID = "C04"
@@ -691,6 +692,8 @@ def ops(case):
             out.extend(nc.ops(u, case["opts"]))
             # the whole function on the string, the parser being the model's own
             out.extend(nw.norm_ops(u, case["opts"]))
+            # platform_aware=True: the same with the CONCRETE branch (Model/Platform.lean), nothing shipped
+            out.extend(ppa.norm_pa_ops(u, case["opts"], branch=False))
     return out
 
 
@@ -700,6 +703,7 @@ def impl(case):
         if _modelable(u):
             out.extend(nc.impl(u, case["opts"]))
             out.extend(nw.norm_impl(u, case["opts"]))
+            out.extend(ppa.norm_pa_impl(u, case["opts"], branch=False))
     return out
 
 
@@ -744,7 +748,7 @@ def nontrivial(case):
 
 def classify(case):
     if case["kind"] == "raw":
-        return ["corpus"] + sorted(set(nw.label(u, case["opts"]) for u in (case["u"], case["v"])))
+        return ["corpus"] + sorted(set(nw.label(u, case["opts"]) for u in (case["u"], case["v"]))) + _pa_labels((case["u"], case["v"]), case["opts"])
     v = variant(case)
     if v is None:
         return ["not-applicable"]
@@ -752,7 +756,15 @@ def classify(case):
     labs.append("composed:%d" % len(case["T"]))
     labs.append("opts:" + ("+".join(sorted(case["opts"])) or "default"))
     labs.extend(sorted(set(nw.label(u, case["opts"]) for u in v)))
+    labs.extend(_pa_labels(v, case["opts"]))
     return labs
+
+
+def _pa_labels(urls, opts):
+    """platform_aware=True: is the concrete-branch op (normalize_whole_pa) run or withheld, did the branch rewrite"""
+    if not nc.full_opts(opts)["platform_aware"]:
+        return []
+    return sorted(set(ppa.label_pa(u, opts) for u in urls if _modelable(u)))
 
 
 RULE = (
@@ -776,7 +788,7 @@ EXHAUSTIVE = {
 TRUSTED = [
     "CPython urlsplit and the SplitResult accessors are a hand model (Py/UrlSplit.lean, Py/UrlAccessors.lean) compared with the real parser on every run, not proved equal to it: (a) component level — the harness ships the Parsed record of the string normalize_url parses (`norm_parts`); (b) string level — the model's own parser inside the whole-string model (`normalize_whole`: string + options in, result out, nothing of CPython shipped) against the real normalize_url on both spellings of every case whose parsed string is inside the parser model's stated domain (no non-ASCII cased character in the host, no NFKC-sensitive netloc, no IPv4 tail in an IPv6 literal; the others are counted as whole:outside-model:*). How the MODELLED parser maps a string transformation of the family (scheme, userinfo, default port, host case, leading label, trailing slash, index name, fragment, query item, permutation, '&amp;') to the component transformation is PROVED for the grammar class of Lemmas/NormBridge.lean (parse_str; Props/C04Whole.lean norm_*_string); outside that class (an IP literal the model's approximate bracket check rejects, userinfo with brackets, relative paths, platform_aware) it is covered by correspondence + oracle only",
     "attempt_to_decode_idna (CPython idna codec) is the abstract `puny` (PunyLaws / PunyCase hypotheses, instances proved for the identity decoder; the real codec's answers are shipped per label and compared)",
-    "the platform_aware branch (facebook / youtube rewriting) is an abstract `platform : Str -> Str`; the harness ships the rewritten URL's components",
+    "the platform_aware branch (facebook / youtube rewriting): the old lines (`norm_parts`, `normalize_whole`) keep the abstract `platform : Str -> Str` and the harness ships the rewritten URL's components / the table {string handed to the branch: result}; the line `normalize_whole_pa` (both spellings of every platform_aware=True case) ships NOTHING about the branch: it is the concrete Platform.platformConcrete of Model/Platform.lean (normalize_url.py:268-276 over the C19 models of ural/facebook.py / ural/youtube.py), compared with the real normalize_url(u, platform_aware=True); cases outside the component models' stated domains are counted (pa:outside-model:*) and withheld",
     "infer_redirection is the Lean model of C15 (Model/Redirect.lean), compared on every case (`norm_clean` line)",
     "hand-written scanners for the look-around regexes (IRRELEVANT_SUBDOMAIN(_AMP)_RE, AMP_SUFFIXES_RE, MISTAKES_RE) are tied to the regenerated pattern strings and probe tables by the obligations of Props/C05.lean and to the code by differential execution",
     "Lean kernel, the driver's JSON glue (Driver/Norm.lean), harness/norm_common.py prepare() (replay of the steps before parsing with ural's own pieces, itself compared with the model)",
@@ -808,7 +820,10 @@ UNPROVED = (
     "correspondence of both spellings: (i) that the hand model of urlsplit + accessors IS CPython's (compared, C01/C02 parse_url "
     "streams and normalize_whole here); (ii) invariance of infer_redirection itself under the family (KF-C04-1 = D29: hints are searched in "
     "the raw string) — the theorems cover the function after the pre-step (norm_redirect_prestep is exact); (iii) "
-    "platform_aware=True (abstract `platform`; KF-C04-4 = D53); (iv) non-absolute paths (no authority) for slash / index; "
+    "platform_aware=True: off facebook / youtube hosts every string theorem above holds with the option on (Props/C05Platform.lean, listed under C05: Ural.Props.C04.norm_*_string_pa, "
+    "hypothesis NotPlatform on both spellings — a property of the host text, notPlatform_of_host; white space / control characters around: every string, norm_clean_string_pa); "
+    "on platform urls the family is NOT respected, by design (KF-C04-4 = D53) — now theorems about the concrete branch: d53_escaped_path_letter, d53_index_file_name, "
+    "d53_label_in_front_of_host, fullPlatformInvariance_false; (iv) non-absolute paths (no authority) for slash / index; "
     "(v) options: each theorem names the options it needs (strip_trailing_slash for the query and path theorems, lowercase off)."
 )
 LEVEL_NOTE = "proof about the model + differential execution of both spellings + oracle; two known findings (design: D29, D53)"
